@@ -206,10 +206,10 @@ ssize_t fileRead(int fd, File* f, void* buf, size_t n) {
   errno = EBADF; return -1;
 }
 int fileClose(int fd) {
+  chargeCall(); yieldSync();            // yield first: the table may change while we are pre-empted (e.g. the process gets killed)
   FdTable& tb = curTable();
   auto it = tb.m.find(fd);
   if (it == tb.m.end()) { errno = EBADF; return -1; }
-  chargeCall(); yieldSync();
   File* f = it->second; tb.m.erase(it);
   // like the kernel: closing a descriptor removes it from every epoll interest list
   for (File* e : allFiles) if (e->kind == FK_EPOLL && e->refs > 0) e->interest.erase(fd);
